@@ -131,7 +131,7 @@ IMPORTS = ("From Coq Require Import List NArith ZArith Bool.\n"
 ANCHORS = ["ebuild/cpv.py::CPV.__init__", "ebuild/cpv.py::CPV.__hash__", "ebuild/cpv.py::CPV.__eq__",
            "ebuild/cpv.py::CPV.__ne__", "ebuild/cpv.py::CPV.__lt__", "ebuild/cpv.py::CPV.__le__",
            "ebuild/cpv.py::CPV.__gt__", "ebuild/cpv.py::CPV.__ge__", "ebuild/cpv.py::ver_cmp",
-           "ebuild/cpv.py::Revision", "ebuild/atom.py::atom.__cmp__", "ebuild/atom.py::atom.__init__",
+           "ebuild/cpv.py::Revision", "ebuild/atom.py::atom.__cmp__",
            "ebuild/atom.py::atom.__attr_comparison__"]
 ATOM_OPS = ("", "<", "<=", "=", "=*", "~", ">=", ">")
 USE_POOL = ("x", "y", "-z", "x?", "!y?", "z=", "x(+)", "-y(-)", "w", "!w=")
@@ -414,7 +414,7 @@ def main(chk: Check):
 
     # ------------------------------------------------------------ CPV pairs
     cpv_cases, key_cases = [], []
-    for i in range(chk.n(450, 4000)):
+    for i in range(chk.n(350, 4000)):
         v1 = c01.gen_version(rng)
         x = rng.random()
         v2 = v1 if x < 0.1 else (respell_version(rng, v1) if x < 0.5 else
@@ -463,7 +463,7 @@ def main(chk: Check):
         (A(blocks=False, bstrong=False, op="=", cat="a", pkg="b", ver=c01.parse_text("1.0"), negate=False), "rev", "0"),
     ]
     pairs = [(a, a.copy(**{f: v})) for a, f, v in witness]
-    for _ in range(chk.n(500, 5000)):
+    for _ in range(chk.n(400, 5000)):
         a = gen_atom(rng)
         x = rng.random()
         b = a.copy() if x < 0.05 else (respell_atom(rng, a) if x < 0.8 else gen_atom(rng))
